@@ -22,6 +22,12 @@ F = {
                ("prop", "lamp", "enable", B(">", V("s"), V("n")))], B("+", V("s"), I(0))),
     "nested": ("func", "f", [("Signal", "s"), ("int", "n")], [], B("+", ("call", "g", [V("s")]), V("n"))),
 }
+# parameter names that are also names of the caller: arguments must be evaluated in the CALLER's scope
+SWAP = [
+    ("func", "sub2", [("Signal", "a"), ("Signal", "c")], [], B("-", B("*", V("a"), I(3)), V("c"))),
+    ("func", "inner", [("Signal", "x0"), ("Signal", "a")], [], B("-", V("x0"), B("*", V("a"), I(2)))),
+    ("func", "outer", [("Signal", "a"), ("Signal", "x0")], [], B("+", ("call", "inner", [V("x0"), V("a")]), I(1))),
+]
 G = ("func", "g", [("Signal", "q")], [("decl", "Signal", "w1", B("*", V("q"), V("q")))], B("-", V("w1"), I(1)))
 ARGS = {
     "typed,int": (V("a"), I(3)), "typed,intvar": (V("a"), V("kk")), "untyped,int": (V("u"), I(2)),
@@ -106,6 +112,15 @@ class C15(core.Check):
                     c = mk(fname, argname, ctx)
                     if c:
                         out.append(c)
+        pre = [("decl", "Signal", "x0", B("+", V("a"), I(100)))]
+        for tag, body in (
+            ("swap-args", [SWAP[0], ("decl", "Signal", "r1", ("call", "sub2", [V("c"), V("a")]))]),
+            ("swap-expr-args", [SWAP[0], ("decl", "Signal", "r1", ("call", "sub2", [B("+", V("c"), I(1)), B("*", V("a"), V("c"))]))]),
+            ("swap-nested", [SWAP[1], SWAP[2], ("decl", "Signal", "r1", ("call", "outer", [V("c"), V("a")]))]),
+            ("swap-nested-self", [SWAP[1], SWAP[2], ("decl", "Signal", "r1", ("call", "outer", [V("x0"), V("c")]))]),
+        ):
+            out.append({"f": tag, "args": "caller-names", "ctx": "once", "stmts": gen.prog_with_inputs(["a", "c"], pre + body),
+                        "inputs": ["a", "c"], "outputs": ["r1", "x0"] if "self" not in tag else ["r1"]})
         for name, body in ENTITY_PROGS.items():
             out.append({"f": name, "args": "-", "ctx": "entity", "stmts": gen.prog_with_inputs(["a"], body),
                         "inputs": ["a"], "outputs": []})
